@@ -520,6 +520,29 @@ static void do_op(struct op *p)
 		iv_timer_register(t);
 		o->reg = 1;
 		alog(n, id, id, 0, 0, x, 0);
+	} else if (!strcmp(n, "tm_bulk")) {
+		/* a[1] = count, a[2] = seconds from now: a block of timers that stay registered
+		 * (far in the future); object id stands for the whole block */
+		OBJ(K_TM);
+		static struct iv_timer *bulk;
+		int cnt = (int)p->a[1];
+		if (o->reg || o->mem != NULL || bulk != NULL || cnt < 1 || cnt > 100000) { skip(n, id); goto out; }
+		bulk = __real_malloc(cnt * sizeof(*bulk));
+		memset(bulk, 0xAA, cnt * sizeof(*bulk));
+		if (memrec_on)
+			memrec_user_add(bulk, cnt * sizeof(*bulk), K_TM, id);
+		struct timespec now = iv_now;
+		ns_t x = now.tv_sec * NSEC + now.tv_nsec + (ns_t)p->a[2] * NSEC;
+		for (int i = 0; i < cnt; i++) {
+			IV_TIMER_INIT(&bulk[i]);
+			bulk[i].cookie = cookie_of(K_TM, id);
+			bulk[i].handler = ohtab[K_TM][id];
+			bulk[i].expires.tv_sec = (x + i) / NSEC;
+			bulk[i].expires.tv_nsec = (x + i) % NSEC;
+			iv_timer_register(&bulk[i]);
+		}
+		o->reg = 1;
+		alog("tm_reg", id, id, 0, 0, x, 0);
 	} else if (!strcmp(n, "tm_unreg")) {
 		OBJ(K_TM);
 		if (!o->reg || o->mem == NULL) { skip(n, id); goto out; }
